@@ -43,7 +43,8 @@ AB = "abcheck.c"
 def _items():
     I = []
     def bad(id, body, target=None, msg=None, hdr=HDR, lib="aldor", files=None, note=""):
-        I.append(Item(id, hdr + body, "error", lib, target, msg or (target[2] if target else None), files, note))
+        m = (target[2] if target else None) if msg is None else msg      # msg=False: no particular message expected
+        I.append(Item(id, hdr + body, "error", lib, target, m, files, note))
     def ok(id, body, hdr=HDR, lib="aldor", files=None):
         I.append(Item(id, hdr + body, "clean", lib, None, None, files))
     def t(fn, m):
@@ -172,7 +173,7 @@ def _items():
     bad("libraryDir-without-argument", "#libraryDir\n", (SC, "scmdProcessOrCheck", "ALDOR_E_SysCmdBad"))
     bad("error-directive", "#error this is wrong\n", (SC, "scmdProcessOrCheck", "ALDOR_E_ExplicitMsg"), " this is wrong")
     bad("error-directive-last-line-no-newline", "x: %s := 1;\n#error this is wrong" % MI, (SC, "scmdProcessOrCheck", "ALDOR_E_ExplicitMsg"), " this is wrong")
-    bad("error-directive-without-text", "#error\n", (SC, "scmdProcessOrCheck", "ALDOR_E_ExplicitMsg"), "",
+    bad("error-directive-without-text", "#error\n", (SC, "scmdProcessOrCheck", "ALDOR_E_ExplicitMsg"), False,
         note="counted but not printed by the unchanged compiler (recorded finding)")
     bad("library-file-missing", '#library X "nonexistent.al"\n', (SC, "scmdHandleLibrary", "ALDOR_F_CantOpen"), None,
         note="only warnings in the unchanged compiler")
@@ -204,7 +205,123 @@ def _items():
     ok("balanced-brace", "x: %s := {1};\n" % MI)
     bad("string-never-closed", 'import from String;\nx: String := "abc;\n', None, None)
     bad("bad-character", "x: %s := \x01 1;\n" % MI, None, None)
-    bad("nul-byte", "x: %s := 1;\0 junk (((\n" % MI, ("include.c", "inclLine", "ALDOR_E_ScanBadChar"))
+    bad("nul-then-junk", "x: %s := 1;\0 junk (((\n" % MI, ("include.c", "inclLine", "ALDOR_E_ScanBadChar"))
+    # ---------------------------------------------------------------- macro expansion (macex.c, abnorm.c)
+    MX = "macex.c"
+    BADARGC = (MX, "macApply", "ALDOR_E_MacBadArgc")
+    for n in (1, 2, 3):
+        ps = ["a%d" % k for k in range(n)]
+        mdef = "macro m(%s) == %s;\n" % (", ".join(ps), " + ".join(ps))
+        vals = [str(k + 1) for k in range(n)]
+        ok("macro-n%d-called-with-%d" % (n, n), mdef + "x: %s := m(%s);\n" % (MI, ", ".join(vals)))
+        bad("macro-n%d-called-with-0" % n, mdef + "x: %s := m();\n" % MI, BADARGC)
+        for k in range(1, n):
+            bad("macro-n%d-called-with-%d" % (n, k), mdef + "x: %s := m(%s);\n" % (MI, ", ".join(vals[:k])), BADARGC)
+        # one surplus argument at every position, and two at the end
+        for pos in range(n + 1):
+            a = list(vals); a.insert(pos, "junk")
+            bad("macro-n%d-surplus-at-%d" % (n, pos), mdef + "x: %s := m(%s);\n" % (MI, ", ".join(a)), BADARGC)
+        bad("macro-n%d-two-surplus-last" % n, mdef + "x: %s := m(%s, junk, 1 2 3);\n" % (MI, ", ".join(vals)), BADARGC)
+    def domain(fbody, gbody):
+        return ("D: with { f: % -> MI; g: MI -> % } == add { Rep == MI; f(c: %): MI == FBODY; g(i: MI): % == GBODY }\n"
+                .replace("MI", MI).replace("FBODY", fbody).replace("GBODY", gbody))
+    ok("rep-per-one-argument", domain("rep c", "per i"))
+    ok("rep-per-one-argument-parenthesised", domain("rep(c)", "per(i)"))
+    for nm, good, var, other in (("rep", "per i", "c", 0), ("per", "rep c", "i", 1)):
+        for label, args in (("no-argument", ""), ("two-arguments", "%s, %s" % (var, var)), ("surplus-first", "junk, %s" % var),
+                            ("surplus-last", "%s, junk" % var), ("three-arguments", "%s, %s, 1 2 3" % (var, var))):
+            call = "%s(%s)" % (nm, args)
+            bad("%s-%s" % (nm, label), domain(*((call, good) if other == 0 else (good, call))), BADARGC)
+    bad("macro-circular-self", "macro m == m;\nx := m;\n", (MX, "macId", "ALDOR_E_MacInfinite"))
+    bad("macro-circular-pair", "macro a == b;\nmacro b == a;\nx := a;\n", (MX, "macId", "ALDOR_E_MacInfinite"))
+    bad("macro-circular-triple-last", "macro a == b;\nmacro b == c;\nmacro c == a;\nx := c;\n", (MX, "macId", "ALDOR_E_MacInfinite"))
+    ok("macro-chain", "macro a == b;\nmacro b == 1;\nx: %s := a;\n" % MI)
+    bad("macro-definee-literal", 'macro "s" == 3;\n', (MX, "macMDefine", "ALDOR_E_MacBadDefn"))
+    bad("macro-parameter-literal", 'macro f("s") == 2;\n', (MX, "macMLambda", "ALDOR_E_MacBadParam"))
+    bad("macro-parameter-literal-second", 'macro f(a, "s") == a;\n', (MX, "macMLambda", "ALDOR_E_MacBadParam"))
+    bad("macro-parameter-expression", "macro 1+2 == 3;\n", (MX, "macMLambda", "ALDOR_E_MacBadParam"))
+    bad("macro-parameter-declared", "macro f(x: %s) == x;\ny: %s := f(1);\n" % (MI, MI), (MX, "macMLambda", "ALDOR_E_MacBadParamDecl"))
+    bad("macro-parameter-declared-second", "macro f(a, x: %s) == x;\n" % MI, (MX, "macMLambda", "ALDOR_E_MacBadParamDecl"))
+    AN = "abnorm.c"
+    bad("macro-with-return-type", "macro f(x): %s == x;\n" % MI, (AN, "abnMDefine", "ALDOR_E_NormMacDecl"))
+    bad("macro-curried-with-return-type", "macro g(a)(b): %s == a;\n" % MI, (AN, "abnMDefine", "ALDOR_E_NormMacDecl"))
+    bad("macro-body-not-a-definition", "macro a := 1;\n", (AN, "abnMacro", "ALDOR_E_NormMacBadBody"))
+    bad("macro-body-not-a-definition-second", "macro { a == 1; 2 }\n", (AN, "abnMacro", "ALDOR_E_NormMacBadBody"))
+    bad("macro-body-not-a-definition-first", "macro { 2; a == 1 }\n", (AN, "abnMacro", "ALDOR_E_NormMacBadBody"))
+    bad("macro-import-unknown-library", "macro import { a } from NoSuchLib;\n", (AN, "abnMacImport", "ALDOR_E_NormMacDecl"))
+    bad("macro-import-from-expression", "macro import a from 1+2;\n", (AN, "abnMacImport", "ALDOR_E_NormMacDecl"))
+    bad("macro-export-not-a-definition", "macro export a;\n", (AN, "abnMacExport", "ALDOR_E_NormMacDecl"))
+    ok("macro-sequence", "macro { a == 1; b == 2 }\nx: %s := a + b;\n" % MI)
+    # ---------------------------------------------------------------- scanner (scan.c) and parser (parseby.c)
+    SCN = "scan.c"
+    for k, lit in enumerate(("1r0", "0r1", "37r1", "100r1")):
+        bad("radix-out-of-range-%d" % k, "x: %s := %s;\n" % (MI, lit), (SCN, "scanNumber", "ALDOR_E_ScanBadRadix"))
+    ok("radix-2", "x: %s := 2r101;\n" % MI)
+    ok("radix-36", "x: %s := 36rZ;\n" % MI)
+    bad("radix-followed-by-sign", "x: %s := 2r+1;\n" % MI, (SCN, "scanNumber", "ALDOR_E_ScanBadAftRad"))
+    bad("radix-without-digits", "x: %s := 16r.e1;\n" % MI, (SCN, "scanNumber", "ALDOR_E_ScanNoDigits"))
+    bad("exponent-without-digits", "x := 1e+x;\n", (SCN, "scanNumber", "ALDOR_E_ScanBadExpon"))
+    bad("exponent-without-digits-float", "x := 1.5e-y;\n", (SCN, "scanNumber", "ALDOR_E_ScanBadExpon"))
+    ok("float-with-exponent", "import from DoubleFloat;\nx: DoubleFloat := 1.5e3;\n")
+    bad("string-open-first-statement", 'import from String;\ns: String := "abc\nx: %s := 1;\n' % MI, (SCN, "scanString", "ALDOR_E_ScanOpenString"))
+    bad("string-open-last-line-no-newline", 'import from String;\ns: String := "abc', None, None)
+    bad("string-open-after-escaped-quote", 'import from String;\ns: String := "ab_";\n', None, None)
+    ok("string-with-escaped-quote", 'import from String;\ns: String := "ab_"c";\n')
+    for k, ch in enumerate(("\x01", "\x7f", "\xe9", "\xff")):
+        bad("bad-character-%d-first" % k, ch + "x: %s := 1;\n" % MI, (SCN, "scanError", "ALDOR_E_ScanBadChar"))
+        bad("bad-character-%d-last" % k, "x: %s := 1; %s\n" % (MI, ch), (SCN, "scanError", "ALDOR_E_ScanBadChar"), False)
+        bad("bad-character-%d-middle" % k, "x: %s := %s 1;\n" % (MI, ch), (SCN, "scanError", "ALDOR_E_ScanBadChar"), False)
+    ok("escaped-high-byte-is-an-identifier", "_\xe9: %s := 1;\n" % MI)
+    PB = "parseby.c"
+    bad("syntax-error-plain", "export { f: %s -> %s } from D to Foreign C;\n" % (MI, MI), (PB, "yyerrorfn", "ALDOR_E_SyntaxError"))
+    bad("syntax-error-with-scanner-text", "x: %s := 37r1;\n" % MI, (PB, "yyerrorfn", "ALDOR_E_SyntaxFullError"), "ALDOR_E_ScanBadRadix")
+    bad("syntax-error-no-recovery", "x: %s := 1 );\n" % MI, (PB, "yyerrorfn", "ALDOR_E_SyntaxNoRecovery"))
+    bad("syntax-error-parser-stack", "x: %s := %s1%s;\n" % (MI, "(" * 12000, ")" * 12000), (PB, "yyerrorfn", "ALDOR_E_SyntaxErrorHuh"), "memory exhausted")
+    ok("deep-but-fine", "x: %s := %s1%s;\n" % (MI, "(" * 3000, ")" * 3000))
+    # ---------------------------------------------------------------- NUL bytes at every class of position
+    NULT = ("include.c", "inclLine", "ALDOR_E_ScanBadChar")
+    stmt = "x: %s := 1;\n" % MI
+    bad("nul-first-byte-of-file", "\0" + HDR + stmt, NULT, hdr="")
+    bad("nul-on-include-line", '#include "aldor"\0\nimport from MachineInteger;\n' + stmt, NULT, hdr="")
+    bad("nul-last-byte-of-file", stmt + "\0", NULT)
+    bad("nul-on-a-line-of-its-own", "\0\n" + stmt, NULT)
+    bad("nul-last-line-with-newline", stmt + "\0\n", NULT)
+    bad("nul-in-code", "x: %s :=\0 1;\n" % MI, NULT)
+    bad("nul-in-comment", "-- comment \0 here\n" + stmt, NULT)
+    bad("nul-in-trailing-comment", "x: %s := 1; -- c\0\n" % MI, NULT)
+    bad("nul-in-doc-comment", "+++ doc \0\ny: %s == 2;\n" % MI, NULT)
+    bad("nul-in-string", 'import from String;\ns: String := "a\0b";\n', NULT)
+    bad("nul-on-pile-line", "#pile\0\n" + "x: %s := 1\n" % MI, NULT)
+    bad("nul-on-assert-line", "#assert Yes\0\n" + stmt, NULT)
+    bad("nul-on-if-line-taken", "#assert Yes\n#if\0 Yes\n" + stmt + "#endif\n", NULT)
+    bad("nul-on-if-line-taken-end", "#assert Yes\n#if Yes\0\n" + stmt + "#endif\n", NULT)
+    bad("nul-on-endif-line-taken", "#assert Yes\n#if Yes\n" + stmt + "#endif\0\n", NULT)
+    bad("nul-on-else-line-after-taken", "#assert Yes\n#if Yes\n" + stmt + "#else\0\nskipped (((\n#endif\n", NULT)
+    bad("nul-in-taken-branch", "#assert Yes\n#if Yes\nx: %s := 1;\0\n#endif\n" % MI, NULT)
+    # inside a skipped region a NUL is not reported (480556e reports it `if INCLUDING(ifState)`)
+    ok("nul-in-skipped-text", "#if No\nskipped \0 (((\n#endif\n" + stmt)
+    ok("nul-on-nested-if-in-skipped-region", "#if No\n#if\0 Yes\n#endif\n#endif\n" + stmt)
+    ok("nul-in-skipped-else-part", "#assert Yes\n#if Yes\n" + stmt + "#else\nskipped \0\n#endif\n")
+    # the directive that ends or switches a skipped region takes effect although it carries a NUL
+    bad("nul-on-endif-line-ending-skipped-region", "#if No\nskipped (((\n#endif\0\n" + stmt, NULT,
+        note="not INCLUDING when the line is read: accepted by the compiler as committed in 480556e")
+    bad("nul-on-else-line-ending-skipped-region", "#if No\nskipped (((\n#else\0\n" + stmt + "#endif\n", NULT,
+        note="not INCLUDING when the line is read: accepted by the compiler as committed in 480556e")
+    bad("nul-on-elseif-line-ending-skipped-region", "#assert Yes\n#if No\nskipped (((\n#elseif\0 Yes\n" + stmt + "#endif\n", NULT,
+        note="not INCLUDING when the line is read: accepted by the compiler as committed in 480556e")
+    # ---------------------------------------------------------------- comment / escape interplay
+    wrong = "y: %s := undefinedThing;\n" % MI
+    right = "y: %s := 2;\n" % MI
+    for k, tail in enumerate(("--_", "--_ ", "--_ \t ", "-- c_", "-- c _", "-- c __", "++_", "++_  ", "++ d_", "++ d _ ")):
+        bad("comment-escape-%d-next-line-wrong" % k, "x: %s := 1; %s\n" % (MI, tail) + wrong, None, "ALDOR_E_TinNoMeaningForId")
+        ok("comment-escape-%d-next-line-fine" % k, "x: %s := 1; %s\n" % (MI, tail) + right)
+    for k, tail in enumerate(("+++_", "+++_  ", "+++ d_", "+++ d _ ")):
+        bad("predoc-escape-%d-next-line-wrong" % k, tail + "\ny: %s == undefinedThing;\n" % MI, None, "ALDOR_E_TinNoMeaningForId")
+        ok("predoc-escape-%d-next-line-fine" % k, tail + "\ny: %s == 2;\n" % MI)
+    bad("comment-escape-only-line-next-line-wrong", "--_\n" + wrong, None, "ALDOR_E_TinNoMeaningForId")
+    bad("comment-escape-next-line-syntax-error", "x: %s := 1; --_\n)\n" % MI, None, None)
+    bad("comment-escape-after-continued-statement", "x: %s := 1 + _\n  2; --_\n" % MI + wrong, None, "ALDOR_E_TinNoMeaningForId")
+    ok("comment-escape-after-continued-statement-fine", "x: %s := 1 + _\n  2; --_\n" % MI + right)
     # ---------------------------------------------------------------- includer (include.c): conditional inclusion
     IC = "include.c"
     base = "x: %s := 1;\n" % MI
@@ -268,6 +385,9 @@ UNREACHED = [
     (AB, "abCheckFor0_old", "ALDOR_E_ChkBadFor", "dead code: the function is not called"),
     ("syscmd.c", "scmdProcessOrCheck", "ALDOR_E_SysCmdBad", None),      # reached (library); listed for includeDir, which include.c handles first
     ("linear.c", "serrorUnbalanced", "ALDOR_F_Bug", "serrorUnbalanced is only called with the four pile/brace tokens"),
+    ("macex.c", "macApply", "ALDOR_E_MacBadArg", "compiled out: macex.c has `#undef MacDeclArgs`"),
+    ("abnorm.c", "abnMLambda", "ALDOR_E_NormMacDecl", "`(a): T +->* b` reaches abCheckParamDefine as an ordinary lambda; no AB_MLambda with a declared parameter list was obtained"),
+    ("parseby.c", "yyerrorfn", "ALDOR_F_SyntaxOverflow", "bison reports its stack limit as \"memory exhausted\", never as \"yacc stack overflow\": it arrives as ALDOR_E_SyntaxErrorHuh (catalogued)"),
 ]
 UNREACHED = [u for u in UNREACHED if u[3]]
 
@@ -480,7 +600,7 @@ def run_part(ctx, build):
             else:
                 verdict = "error"
                 rx = msgs.get(it.msg) if it.msg and it.msg.startswith("ALDOR_") else (re.escape(it.msg) if it.msg else None)
-                if rx and not re.search(r"\((?:Fatal )?Error\) (?:\(After Macro Expansion\) )?" + rx, o):
+                if rx and not re.search(r"\((?:Fatal )?Error\) [^\n]*" + rx, o):
                     verdict = "other-diagnostic"
                     ctx.corr_broken.append((NAME, "catalogue item %s (%r)" % (it.id, it.text[-100:]),
                                             "diagnostics: " + " | ".join(l.strip()[:90] for l in o.split("\n") if "(Error)" in l or "(Fatal Error)" in l)[:300],
